@@ -54,10 +54,80 @@ def make_models():
         del it.load(args[0]).fields[:]
         return unit()
 
+    def vd_with_capacity(it, cal, args):
+        return Agg("VecDeque", [], meta={"requested": args[0]})
+
+    def vd_capacity(it, cal, args):
+        # std only promises capacity() >= max(len, requested capacity) (usize::MAX for zero-sized elements): symbolic
+        d = it.load(args[0])
+        c = it.fresh("vdcap", "usize")
+        it.assume(z3.UGE(c.v, len(d.fields)))
+        req = (d.meta or {}).get("requested") if isinstance(d.meta, dict) else None
+        if req is not None:
+            it.assume(z3.UGE(c.v, req.v))
+        return c
+
+    def vd_truncate(it, cal, args):
+        d = it.load(args[0])
+        if it.branch(z3.UGE(args[1].v, len(d.fields)), "truncate-noop"):
+            return unit()
+        n = it.concretize(args[1], "truncate", limit=len(d.fields) + 1)
+        del d.fields[n:]
+        return unit()
+
+    def vd_front(it, cal, args):
+        p = it.deref(args[0])
+        d = it.read_loc(p.cell, p.path)
+        return some(Ptr(p.cell, p.path + (("i", 0),), "ref")) if d.fields else none()
+
+    def vd_back(it, cal, args):
+        p = it.deref(args[0])
+        d = it.read_loc(p.cell, p.path)
+        return some(Ptr(p.cell, p.path + (("i", len(d.fields) - 1),), "ref")) if d.fields else none()
+
+    def vd_get(it, cal, args):
+        p = it.deref(args[0])
+        d = it.read_loc(p.cell, p.path)
+        n = it.concretize(args[1], "get", limit=16)
+        return some(Ptr(p.cell, p.path + (("i", n),), "ref")) if 0 <= n < len(d.fields) else none()
+
+    def vd_remove(it, cal, args):
+        d = it.load(args[0])
+        n = it.concretize(args[1], "remove", limit=16)
+        return some(d.fields.pop(n)) if 0 <= n < len(d.fields) else none()
+
+    def vd_insert(it, cal, args):
+        d = it.load(args[0])
+        n = it.concretize(args[1], "insert", limit=16)
+        d.fields.insert(n, args[2])
+        return unit()
+
+    def then_some(it, cal, args):
+        if it.branch(args[0], "then_some"):
+            return some(args[1])
+        return none()
+
+    def opt_replace(it, cal, args):
+        old = it.load(args[0])
+        it.store(args[0], some(args[1]))
+        return old
+
+    def opt_insert(it, cal, args):
+        it.store(args[0], some(args[1]))
+        p = it.deref(args[0])
+        return Ptr(p.cell, p.path + (("f", 0),), "ref")
+
+    M.extra.update({
+        "VecDeque::with_capacity": vd_with_capacity, "VecDeque::capacity": vd_capacity, "VecDeque::truncate": vd_truncate,
+        "VecDeque::front": vd_front, "VecDeque::back": vd_back, "VecDeque::front_mut": vd_front, "VecDeque::back_mut": vd_back,
+        "VecDeque::get": vd_get, "VecDeque::get_mut": vd_get, "VecDeque::remove": vd_remove, "VecDeque::insert": vd_insert,
+        "core::bool::<impl bool>::then_some": then_some, "bool::then_some": then_some,
+        "Option::replace": opt_replace, "Option::insert": opt_insert,
+    })
     M.extra.update({
         "VecDeque::pop_back": vd_pop_back, "VecDeque::push_front": vd_push_front, "VecDeque::is_empty": vd_is_empty,
         "VecDeque::clear": vd_clear,
-        "VecDeque::new": vd_new, "VecDeque::with_capacity": vd_new, "VecDeque::len": vd_len, "VecDeque::push_back": vd_push_back,
+        "VecDeque::new": vd_new, "VecDeque::len": vd_len, "VecDeque::push_back": vd_push_back,
         "VecDeque::pop_front": vd_pop_front, "Mutex::try_lock": try_lock, "std::sync::Mutex::try_lock": try_lock,
     })
     return M
@@ -176,8 +246,23 @@ def _native(work, job, v, d):
     for ln in p.stdout.splitlines():
         if ln.startswith("n "):
             got.append(None if "None" in ln else int(ln[ln.index("(") + 1:ln.index(")")]))
+    note = ""
+    if got == expect and w["kind"] == "buffer":
+        # second attempt with zero-sized events (EventBuffer<()>): capacity-related behaviour of the backing container may
+        # depend on the element size; only the pattern Some/None is compared
+        lines[0] = lines[0].replace("buffer ", "bufferz ", 1)
+        spath2 = os.path.join(d, "script-zst.txt")
+        open(spath2, "w").write("\n".join(lines) + "\n")
+        p = subprocess.run([exe, "--nocapture"], env=C.env_offline({"VERIF_SCRIPT": spath2}), stdout=subprocess.PIPE,
+                           stderr=subprocess.STDOUT, text=True, timeout=60)
+        open(os.path.join(d, "native_trace_zst.txt"), "w").write(p.stdout)
+        gz = [None if "None" in ln else True for ln in p.stdout.splitlines() if ln.startswith("n ")]
+        ez = [None if x is None else True for x in expect]
+        if gz != ez:
+            got, expect = gz, ez
+            note = " (with zero-sized events, EventBuffer<()>: script-zst.txt)"
     open(os.path.join(d, "README.txt"), "w").write(
-        f"Counterexample for C17 ({v['label']}): script.txt run through the public sink API by harness/native/verif_sinks.rs.\n"
+        f"Counterexample for C17 ({v['label']}): script.txt run through the public sink API by harness/native/verif_sinks.rs{note}.\n"
         f"expected reads {expect}\nobserved reads {got}\nRe-run: ./check C17 --replay {d}\n")
     return got != expect
 
